@@ -107,7 +107,7 @@ def ck_representable(pairs):
 
 def sc_representable(name, value, attrs):
     """what one Set-Cookie header can carry: keys without ';' '=' ',' and leading whitespace; attribute keys non-empty; the values of
-    expires/path (never quoted by the formatter) without ';' ',' and leading '"'; expires values longer than 3 characters"""
+    expires/path (never quoted by the formatter) without ';' ',' and leading '"'"""
     allp = [(name, value)] + [tuple(a) for a in attrs]
     for i, (k, v) in enumerate(allp):
         if not ck_name_ok(k, ","): return False
@@ -117,8 +117,6 @@ def sc_representable(name, value, attrs):
         if i > 0 and k == "" and v == "": return False
         if k.lower() in ("expires", "path"):
             if any(c in v for c in ";,") or v.startswith('"'): return False
-            if k.lower() == "expires" and len(v) <= 3: return False
-            if nck._has_special(v) and v != v.rstrip(): pass
     if name == "" and value == "": return False
     return True
 
@@ -148,7 +146,8 @@ class Check(PropertyCheck):
                   "cannot be repaired alone), F-C34b multipart keys with a double quote/CR/LF truncated, F-C34c boundary characters that "
                   "urllib.quote escapes, F-C34d path_components write-back collapses empty segments / trailing slash, F-C34e ('','') form "
                   "pair erased in bare-parameter style, F-C34f Set-Cookie write-back of expires/path values holding ';' ',' or a leading "
-                  "quote, F-C34g query/path_components write-back replaces the asterisk-form target. str.lower() is modelled as ASCII "
+                  "quote (its former 'short expires value swallows the next pair' part was repaired in /repo by e0e81be4a + 8cc872297, which the "
+                  "model now follows), F-C34g query/path_components write-back replaces the asterisk-form target. str.lower() is modelled as ASCII "
                   "lower-casing; empty path components, empty multipart keys, a multipart content type without a lower-case boundary "
                   "parameter, and cookie names containing ';' '=' or leading whitespace are not representable in the wire format.")
     technique = "Lean 4 proof (induction over pair lists / header strings) + differential correspondence on cookies.py, multipart.py and the views"
@@ -196,8 +195,19 @@ class Check(PropertyCheck):
         src = ("-- generated by harness/c34.py from the running interpreter: code points with str.isspace()\n"
                "namespace MitmVerif.Gen.C34\n"
                "def pySpace : List Nat := [" + ", ".join(map(str, sp)) + "]\n"
+               "/-- inclusive ranges of code points with str.isalpha() -/\n"
+               "def pyAlphaRanges : List (Nat × Nat) := [" + ", ".join("(%d, %d)" % r for r in self._alpha_ranges()) + "]\n"
                "end MitmVerif.Gen.C34\n")
         return {"MitmVerif/Gen/C34.lean": src}
+
+    @staticmethod
+    def _alpha_ranges():
+        r, start = [], None
+        for c in range(sys.maxunicode + 2):
+            a = c <= sys.maxunicode and chr(c).isalpha()
+            if a and start is None: start = c
+            if not a and start is not None: r.append((start, c - 1)); start = None
+        return r
 
     # ------------------------------------------------------------------ generator
     def _s(self, rng, alpha, lo=0, hi=4):
@@ -721,8 +731,7 @@ class Check(PropertyCheck):
 
     @staticmethod
     def _sc_offending(k, v):
-        return v is not None and k.lower() in ("expires", "path") and \
-            (any(c in v for c in ";,") or v.startswith('"') or (k.lower() == "expires" and len(v) <= 3))
+        return v is not None and k.lower() in ("expires", "path") and (any(c in v for c in ";,") or v.startswith('"'))
 
     def _sc_explain(self, view, view2):
         """F-C34f exactly: written back cookie by cookie (one header each), every cookie without an offending expires/path value reads back
@@ -826,6 +835,8 @@ class Check(PropertyCheck):
                   "setcookie-writeback: x", None))                                                   # the cookie's own name changed
         T.append(({"k": "setcookiehdr", "hdrs": ["a=b; path=/x"]}, {"view": [["a", "b", [["path", "/x"]]]], "view2": [["a", "b", []]]},
                   "setcookie-writeback: x", None))                                                   # no offending value in the view
+        T.append(({"k": "setcookiehdr", "hdrs": ["a=b; expires=0; path=/x"]}, {"view": [["a", "b", [["expires", "0"], ["path", "/x"]]]],
+                  "view2": [["a", "b", [["expires", "0,"]]]]}, "setcookie-writeback: x", None))      # short expires: repaired (e0e81be4a), not excused
         T.append(({"k": "setcookiehdr", "hdrs": ['a=b; path="/x;y"', "c=d"]},
                   {"view": sv + [["c", "d", []]], "view2": [["a", "b", [["path", "/x"], ["y", None]]], ["c", "D", []]]}, "setcookie-writeback: x", None))
         for case, obs, failure, want in T:
